@@ -300,6 +300,9 @@ func c12Repeat(t *testing.T, sc *C12Scenario, job *Job, res *Result) {
 		s := RunSyncSession(t, &run, lay, SessionHooks{TapWire: true, MaxWire: 32 << 20})
 		res.AddSession(s)
 		if !sessionSucceeded(res, s, "["+label+"] ") {
+			if res.Violation == nil {
+				return nil, nil, false // inconclusive (harness trouble)
+			}
 			setTape(&sc.Tr, s)
 			return nil, nil, false
 		}
